@@ -273,11 +273,11 @@ pub fn set_preference(name: String, value: String) -> Result<()> {
         }
         let lower_case_value = value.to_lowercase();
         if lower_case_value == "true" || lower_case_value == "false" {
-            pref_manager.set_api_boolean_pref(&name, value.to_lowercase() == "true");
+            pref_manager.set_api_boolean_pref(&name, value.to_lowercase() == "true")?;
         } else {
             match name.as_str() {
                 "Pitch" | "Rate" | "Volume" | "CapitalLetters_Pitch" | "MathRate" | "PauseFactor" => {
-                    pref_manager.set_api_float_pref(&name, to_float(&name, &value)?)
+                    pref_manager.set_api_float_pref(&name, to_float(&name, &value)?)?
                 }
                 _ => {
                     pref_manager.set_string_pref(&name, &value)?;
